@@ -12,6 +12,7 @@ request is served:
   Variable.get_formula                      (kind formulascan)  its `return None` guards and the reversed first-match scan of the SortedDict
   ParameterNodeAtInstant.__init__           (kind childrenloop) the loop keeping the children that are not None at the instant
   Holder.get_array                          (kind holderlookup) the lookup through the memory and the disk store
+  Simulation.purge_cache_of_invalid_values  (kind purge)        the empty-stack guard, the deletion loop, the reset of the marks
   Holder._set (tail)                        (kind holderstore)  `should_store_on_disk` and which store the branch writes to
 
 into `lean/OFCore/OFCore/GeneratedGuards.lean`.  `Props/C03Tie.lean` (and `C01Tie`, `C16Tie`) prove that the hand-written
@@ -577,6 +578,33 @@ def holder_store_choice(fn: ast.FunctionDef) -> str:
     return f"  {cond}" if a == "disk" else f"  (!{cond})"
 
 
+def purge_shape(fn: ast.FunctionDef) -> str:
+    """`Simulation.purge_cache_of_invalid_values`: `if [not] self.tracer.stack: return`, then the loop deleting every marked
+    (name, period) through its holder, then `self.invalidated_caches = set()`"""
+    body = [s for s in fn.body if not (isinstance(s, ast.Expr) and isinstance(s.value, ast.Constant))]
+    if len(body) != 3 or not isinstance(body[0], ast.If) or not isinstance(body[1], ast.For) or not isinstance(body[2], ast.Assign):
+        raise NotTranslatable("not `if …: return` / `for …` / `… = set()`")
+    g, loop, reset = body
+    if g.orelse or len(g.body) != 1 or not isinstance(g.body[0], ast.Return) or g.body[0].value is not None:
+        raise NotTranslatable("the guard does not `return`")
+    t = ast.unparse(g.test)
+    if t == "self.tracer.stack":
+        cond = "(!stack.isEmpty)"
+    elif t == "not self.tracer.stack":
+        cond = "stack.isEmpty"
+    else:
+        raise NotTranslatable(f"the guard tests `{t[:40]}`")
+    if ast.unparse(loop.iter) != "self.invalidated_caches" or loop.orelse or not isinstance(loop.target, ast.Tuple) or len(loop.target.elts) != 2:
+        raise NotTranslatable("the loop is not over the pairs of `self.invalidated_caches`")
+    a, b = (ast.unparse(e) for e in loop.target.elts)
+    stmts = [ast.unparse(s) for s in loop.body]
+    if stmts != [f"holder = self.get_holder({a})", f"holder.delete_arrays({b})"]:
+        raise NotTranslatable("the loop body is not `holder = self.get_holder(name); holder.delete_arrays(period)`")
+    if ast.unparse(reset) != "self.invalidated_caches = set()":
+        raise NotTranslatable("the marks are not reset to `set()`")
+    return f"  if {cond} then s else\n  reset (inval.foldl deleteOne s)"
+
+
 def located_test(fn: ast.FunctionDef, tr: Tr, marker: str) -> str:
     """the test of the one `if … : raise` whose source mentions `marker`, wherever it is nested in the function"""
     found = [n for n in ast.walk(fn) if isinstance(n, ast.If) and marker in ast.unparse(n.test) and not n.orelse
@@ -711,6 +739,9 @@ SPECS = [
     dict(name="holder_set_to_disk", module="GeneratedEngine", file=HOLDER, cls="Holder", func="_set", kind="holderstore",
          params="{V : Type} (storable : Bool) (m : Option V) (pressure : Bool)", typ="Bool",
          fallback="(storable && m.isNone && pressure)"),
+    dict(name="purge_cache_of_invalid_values", module="GeneratedEngine", file=SIM, cls="Simulation", func="purge_cache_of_invalid_values",
+         kind="purge", params="{S N I : Type} (stack : List N) (inval : List I) (deleteOne : S → I → S) (reset : S → S) (s : S)", typ="S",
+         fallback="if (!stack.isEmpty) then s else\n  reset (inval.foldl deleteOne s)"),
     dict(name="period_text_finer_refused", file="openfisca_core/periods/helpers.py", cls=None, func="period", kind="located",
          marker="unit_weight(period.unit)", vocab={"period.unit": ("base", "unit"), "unit": ("u", "unit")},
          params="(u base : DUnit)", typ="Bool",
@@ -767,7 +798,7 @@ TIED_TO = {
     "period_size_in_years": ["C04"], "period_size_in_months": ["C04"], "period_size_in_days": ["C04"], "period_size_in_weeks": ["C04"],
     "period_size_in_weekdays": ["C04"], "period_get_subperiods": ["C04", "C03"], "period_text_finer_refused": ["C05"],
     "holderSet_raises": ["C03", "C16"], "holderSetInput_refuses": ["C16"], "parameter_get_at_instant": ["C06"], "node_at_instant_children": ["C06"],
-    "checkForCycle": ["C01", "C02"], "variable_get_formula": ["C01"], "holder_get_array": ["C17"], "holder_set_to_disk": ["C17"], "rate_add_bracket": ["C08", "C09"], "amount_add_bracket": ["C08", "C09"],
+    "checkForCycle": ["C01", "C02"], "variable_get_formula": ["C01"], "purge_cache_of_invalid_values": ["C02"], "holder_get_array": ["C17"], "holder_set_to_disk": ["C17"], "rate_add_bracket": ["C08", "C09"], "amount_add_bracket": ["C08", "C09"],
 }
 
 
@@ -866,6 +897,11 @@ def translate(repo: str, module: str = "GeneratedGuards") -> tuple[str, dict]:
                 typ = sp["typ"]
                 doc = (f"the tail of `{sp['cls']}.{sp['func']}` ({sp['file']}): `should_store_on_disk` and the branch that writes; `true` = the value "
                        "goes to the disk store; `pressure` = `psutil…percent >= max_memory_occupation_pc`")
+            elif sp["kind"] == "purge":
+                body = purge_shape(fn)
+                typ = sp["typ"]
+                doc = (f"`{sp['cls']}.{sp['func']}` ({sp['file']}): nothing while the stack is not empty; else every marked (variable, period) is "
+                       "deleted through its holder (`deleteOne`), then the marks are reset (`reset`)")
             elif sp["kind"] == "dispatch":
                 chain = dispatch_chain(fn, tr, sp["leaf"])
                 body = _dispatch_to_lean(chain)
